@@ -159,11 +159,11 @@ def registry_rules(ctx, rule: str):
     data = _method(p, emb, "_data")
     dnodes = expanded(data)
     stores = [n for n in ast.walk(data.node) if isinstance(n, ast.Assign) and any(isinstance(t, ast.Subscript) for t in n.targets)]
-    ok = len(stores) == 1
-    det = "expected one keyed store building the table"
+    comps = [n for n in ast.walk(data.node) if isinstance(n, ast.DictComp)]
+    ok = len(stores) + len(comps) == 1
+    det = "expected one keyed store (or one dict comprehension) building the table"
     if ok:
-        st = stores[0]
-        key = st.targets[0].slice
+        key = stores[0].targets[0].slice if stores else comps[0].key
         items = [n for n in xwalk(data) if isinstance(n, ast.Call) and isinstance(n.func, ast.Name) and n.func.id == "Item"]
         idkw = None
         if len(items) == 1:
@@ -224,11 +224,10 @@ def registry_rules(ctx, rule: str):
          "iteration and length must enumerate the same files: `%s` vs `%s`" % (ast.unparse(fd_it[0]) if fd_it else None, ast.unparse(fd_ln[0]) if fd_ln else None), it.where())
     if fd_it:
         srcs = ast.unparse(fd_it[0])
-        ok = "files=self._files" in srcs.replace(" ", "") and "exclude_dirs" in srcs
-        r.ob(rule + ".filesystem-siblings", fsr.qualname + "#filter", ok, "enumeration must be restricted to the supported extensions and ignore sub-directories: `%s`" % srcs, it.where())
-    files = fsr.attrs.get("_files")
-    ok = isinstance(files, FuncInfo) and len(_self_attr_uses(files.node, "_extensions")) == 1
-    r.ob(rule + ".filesystem-siblings", fsr.qualname + "._files", ok, "the file filter must be derived from self._extensions", files.where() if isinstance(files, FuncInfo) else fsr.where())
+        fkw = next((k.value for k in fd_it[0].keywords if k.arg == "files"), None)
+        ok = fkw is not None and _derives_from_self_attr(p, it, fkw, "_extensions") and "exclude_dirs" in srcs
+        r.ob(rule + ".filesystem-siblings", fsr.qualname + "#filter", ok,
+             "enumeration must be restricted to the supported extensions (a `files=` filter derived from self._extensions) and ignore sub-directories: `%s`" % srcs, it.where())
     ok = any(len(_self_attr_uses(t, "_extensions")) >= 1 for t in expanded(gi))
     r.ob(rule + ".filesystem-siblings", gi.qualname + "#extensions", ok, "lookup must try exactly the supported extensions (self._extensions)", gi.where())
     # yielded key is the stem
@@ -246,7 +245,7 @@ def registry_rules(ctx, rule: str):
     raises = [n for n in xwalk(gi) if isinstance(n, ast.Raise) and n.exc is not None]
     rets = [n for n in ast.walk(gi.node) if isinstance(n, ast.Return)]
     ok = (bool(raises) and all(ast.unparse(n.exc).startswith("KeyError(") for n in raises) and _terminates(gi.node.body)
-          and all(n.value is not None and _resolve_alias([gi.node], n.value) in item_calls for n in rets))
+          and all(n.value is not None and _returns_item(p, gi, _resolve_alias([gi.node], n.value), item_calls) for n in rets))
     r.ob(rule + ".filesystem-keyerror", gi.qualname, ok,
          "an absent key must raise KeyError: the lookup either returns the Item built from an existing file or ends in `raise KeyError(...)` (no other exit)", gi.where())
     wrap = [n for n in xwalk(gi) if isinstance(n, ast.Call) and isinstance(n.func, ast.Name) and n.func.id == "CircularRecord"]
@@ -256,9 +255,9 @@ def registry_rules(ctx, rule: str):
     # ---------------- find_resistance ----------------
     fr = p.get_func("moclo.registry._utils.find_resistance")
     mod = fr.module
-    if "_ANTIBIOTICS" not in mod.assigns or not isinstance(mod.assigns["_ANTIBIOTICS"], ast.Dict):
-        raise AnalysisError("anchor vanished: registry._utils._ANTIBIOTICS")
-    bad = table_value_returns(p, fr, "_ANTIBIOTICS")
+    from .roles import resistance_table
+
+    bad = table_value_returns(p, fr, resistance_table(p))
     if not _terminates(fr.node.body):
         bad.append("line %d: the function can fall off its end (returns None) instead of raising" % fr.node.body[-1].lineno)
     r.ob(rule + ".known-resistance", fr.qualname, not bad,
@@ -289,7 +288,7 @@ def _terminates(body) -> bool:
 
 
 # provenance lattice of the key under which the table is read
-_OTHER, _MEMBER, _MEMBERS = "other", "member", "members"
+_OTHER, _MEMBER, _MEMBERS, _SETS = "other", "member", "members", "sets-of-members"
 
 
 def table_value_returns(p: Program, fi: FuncInfo, table: str, depth: int = 3) -> List[str]:
@@ -389,6 +388,16 @@ def table_value_returns(p: Program, fi: FuncInfo, table: str, depth: int = 3) ->
             if isinstance(e, ast.BinOp) and isinstance(e.op, ast.BitAnd):
                 if is_table(e.left) or is_table(e.right) or _MEMBERS in (self.kind(e.left), self.kind(e.right)):
                     return _MEMBERS
+            if isinstance(e, (ast.ListComp, ast.SetComp, ast.GeneratorExp)) and len(e.generators) == 1 \
+                    and not (isinstance(e.elt, ast.Name) and isinstance(e.generators[0].target, ast.Name) and e.elt.id == e.generators[0].target.id):
+                # a collection of per-item member collections: (labels(f).intersection(table) for f in features)
+                sub = Env.__new__(Env)
+                sub.fn, sub.depth, sub.kinds, sub.parents = self.fn, self.depth, dict(self.kinds), self.parents
+                for x in ast.walk(e.generators[0].target):
+                    if isinstance(x, ast.Name):
+                        sub.kinds[x.id] = _OTHER
+                if sub.kind(e.elt) == _MEMBERS:
+                    return _SETS
             if isinstance(e, (ast.ListComp, ast.SetComp, ast.GeneratorExp)) and len(e.generators) == 1:
                 g = e.generators[0]
                 if isinstance(g.target, ast.Name) and isinstance(e.elt, ast.Name) and e.elt.id == g.target.id:
@@ -422,6 +431,13 @@ def table_value_returns(p: Program, fi: FuncInfo, table: str, depth: int = 3) ->
                         return _MEMBERS
                     if f.id in ("next", "min", "max") and len(e.args) == 1 and self.kind(e.args[0]) == _MEMBERS:
                         return _MEMBER
+                    if f.id == "next" and len(e.args) in (1, 2) and self.kind(e.args[0]) == _SETS and (
+                            len(e.args) == 1 or (isinstance(e.args[1], ast.Constant) and e.args[1].value is None)):
+                        return _MEMBERS  # one of the member collections (or None, which the caller must test before use)
+                    if f.id in ("filter",) and len(e.args) == 2 and self.kind(e.args[1]) == _SETS and ast.unparse(e.args[0]) in ("None", "bool", "len"):
+                        return _SETS
+                    if f.id in ("list", "tuple", "iter") and len(e.args) == 1 and self.kind(e.args[0]) == _SETS:
+                        return _SETS
                     if f.id == "filter" and len(e.args) == 2 and (is_table(e.args[0]) or self.kind(e.args[1]) == _MEMBERS and ast.unparse(e.args[0]) == "None"):
                         return _MEMBERS
                     callee = p.resolve_expr(mod, f)
@@ -473,6 +489,51 @@ def table_value_returns(p: Program, fi: FuncInfo, table: str, depth: int = 3) ->
         return out
 
     return complaints(fi.node, depth)
+
+
+def _helper_of(p: Program, fi: FuncInfo, call: ast.Call) -> Optional[FuncInfo]:
+    f = call.func
+    g = None
+    if isinstance(f, ast.Attribute) and isinstance(f.value, ast.Name) and f.value.id in ("self", "cls") and fi.owner is not None:
+        _, g = p.class_attr_def(fi.owner, f.attr)
+    elif isinstance(f, ast.Name):
+        g = p.resolve_expr(fi.module, f)
+    return g if isinstance(g, FuncInfo) else None
+
+
+def _returns_item(p: Program, fi: FuncInfo, value: ast.expr, item_calls, depth: int = 2) -> bool:
+    """the value is an Item(...) constructor call, directly or as the only thing a helper of the class returns"""
+    if value in item_calls:
+        return True
+    if isinstance(value, ast.Call) and depth > 0:
+        g = _helper_of(p, fi, value)
+        if g is not None:
+            rets = [n for n in ast.walk(g.node) if isinstance(n, ast.Return)]
+            return bool(rets) and all(n.value is not None and _returns_item(p, g, _resolve_alias([g.node], n.value), item_calls, depth - 1) for n in rets)
+    return False
+
+
+def _derives_from_self_attr(p: Program, fi: FuncInfo, e: ast.expr, attr: str, depth: int = 3) -> bool:
+    """the expression is computed from self.<attr>: directly, through a local bound once, through a property of the
+    class, or through a helper that is handed self.<attr>"""
+    if any(isinstance(n, ast.Attribute) and n.attr == attr and isinstance(n.value, ast.Name) and n.value.id == "self" for n in ast.walk(e)):
+        return True
+    if depth <= 0:
+        return False
+    if isinstance(e, ast.Name):
+        defs = [n.value for n in ast.walk(fi.node) if isinstance(n, ast.Assign) and len(n.targets) == 1
+                and isinstance(n.targets[0], ast.Name) and n.targets[0].id == e.id]
+        return len(defs) == 1 and _derives_from_self_attr(p, fi, defs[0], attr, depth - 1)
+    if isinstance(e, ast.Attribute) and isinstance(e.value, ast.Name) and e.value.id == "self" and fi.owner is not None:
+        _, g = p.class_attr_def(fi.owner, e.attr)
+        if isinstance(g, FuncInfo) and g.kind == "property":
+            return any(n.value is not None and _derives_from_self_attr(p, g, n.value, attr, depth - 1) for n in ast.walk(g.node) if isinstance(n, ast.Return))
+    if isinstance(e, ast.Call):
+        g = _helper_of(p, fi, e)
+        if g is not None:
+            # the helper's result is a function of its arguments
+            return any(_derives_from_self_attr(p, fi, a, attr, depth - 1) for a in list(e.args) + [k.value for k in e.keywords])
+    return False
 
 
 def _returns_only(fi: FuncInfo, forms) -> bool:
